@@ -71,11 +71,18 @@ BitsClauses(r) == << <<"bits-read-ok", r.st = "ok">>, <<"bits-shape", r.shape>>,
                      <<"bits-identical", r.mism = 0 /\ r.din = r.dout>> >>
 KindClauses(r) == << <<"no-crash", r.full.st # "crash">>, <<"wrong-value-kind=>error", r.full.st # "ok">> >>
 
+\* a read into vectors that were used before returns what a read into fresh vectors returns
+SameOut(a, b) == a.st = b.st /\ (a.st = "ok" => (a.n = b.n /\ a.m = b.m /\ a.ptr = b.ptr /\ a.col = b.col /\ a.val = b.val))
+UsedVecClauses(r) == << <<"no-crash", r.fresh.st # "crash" /\ r.used.st # "crash">>,
+                        <<"valid-file-read-ok", r.fresh.st = "ok">>,
+                        <<"read-into-used-vectors=read-into-fresh-vectors", SameOut(r.fresh, r.used)>> >>
+
 Clauses(r) ==
     CASE r.k = "mm"      -> MMClauses(r)
       [] r.k = "bin"     -> BinClauses(r)
       [] r.k = "bits"    -> BitsClauses(r)
       [] r.k = "mmkind"  -> KindClauses(r)
+      [] r.k = "usedvec" -> UsedVecClauses(r)
       [] r.k = "summary" -> <<>>
       [] OTHER           -> << <<"unknown-record", FALSE>> >>
 Failed(r) == IF Has(r, "e") THEN (IF r.e = "End" THEN <<>> ELSE <<"recorder:" \o r.e>>)
